@@ -6,3 +6,4 @@ pub mod graphreplay;
 pub mod namesreplay;
 pub mod plugreplay;
 pub mod util;
+pub mod canon;
